@@ -152,12 +152,15 @@ Definition blackholes (k : list kroute) : list kroute := filter (fun r => N.eqb 
 Definition subset {A} (e : A -> A -> bool) (a b : list A) := forallb (fun x => existsb (e x) b) a.
 Definition same_set {A} (e : A -> A -> bool) (a b : list A) := subset e a b && subset e b a.
 
-(* local blocks that must be blackholed by manager T *)
+(* local blocks that must be blackholed by manager T.  A block that a local workload's own "address" covers (equal to
+   it, or a shorter prefix: a workload endpoint whose IPv4Nets/IPv6Nets entry is not a host address) is not demanded:
+   the resolver flags every route under such an address LocalWorkload and routeIsLocalBlock leaves it alone
+   (c43_local_blocks_blackholed has the same hypothesis). *)
 Definition demanded_blackholes (d : dstate) : list kroute :=
   flat_map (fun b => match pool_of d b with
                      | Some p => match encap_of p with
                                  | NotRouted => []
-                                 | e => if Nat.eqb (plen b) 32 || existsb (prefix_eqb b) (wep_addrs d) then []
+                                 | e => if Nat.eqb (plen b) 32 || existsb (fun w => covers 32 w b) (wep_addrs d) then []
                                         else [mkK (mgr_of e) 2 4 b None]
                                  end
                      | None => [] end) (local_blocks d).
